@@ -275,6 +275,31 @@ fn proof_prog<G: CurveTag>(prog: crate::program::Program, col: &mut Collector, p
             n_crafted += 1;
         }
     }
+    // the two list counts: anything but the true count is a format error (never a panic, never an
+    // attempt to reserve what the count claims)
+    for (which, off) in [("L", 11 * G::PT + 3 * G::SC), ("R", 11 * G::PT + 3 * G::SC + 8 + k * G::PT)] {
+        for val in [u64::MAX, 1 << 60, 1 << 32, (k as u64) | 1 << 32, (k as u64) | 1 << 60, 1 << 20, k as u64 + 1, 1 << 24] {
+            if val == k as u64 || off + 8 > e.len() {
+                continue;
+            }
+            let mut b = e.clone();
+            b[off..off + 8].copy_from_slice(&val.to_le_bytes());
+            let (r, peak) = crate::alloc::measure(|| decode_is_format_error::<G>(&b));
+            match r {
+                Ok(true) => {}
+                Ok(false) => {
+                    // a count that happens to be consistent with the bytes that follow cannot occur:
+                    // the lists would run past the end
+                    return Err(Failure::new("C11:invalid-accepted:count", format!("encoding with the {} count set to {} decodes", which, val), pj()));
+                }
+                Err(x) => return Err(Failure::new("C11:invalid-error-kind", format!("{} count := {}: {}", which, val, x), pj())),
+            }
+            if peak > 64 * b.len() + 64 * 1024 {
+                return Err(Failure::new("C11:count-drives-allocation", format!("decoding a {}-byte encoding whose {} count claims {} points reserved {} bytes before refusing it", b.len(), which, val, peak), pj()));
+            }
+            n_crafted += 1;
+        }
+    }
     let tors = torsion_points::<G>();
     let npts = 11 + 2 * k;
     for i in 0..npts {
